@@ -114,4 +114,3 @@ func (r *CfgRun) Again(pid, src string, u *Universe, nth int) *Violation {
 	}
 	return nil
 }
-
